@@ -75,7 +75,7 @@ pub fn view(data: &[u8]) -> c10::ViewCase {
 
 pub fn slice_op(data: &[u8]) -> c10::OpCase {
     let mut u = Unstructured::new(data);
-    let ty = c10::FRAME_TYS[idx(&mut u, 6)];
+    let ty = c10::FRAME_TYS[idx(&mut u, 8)];
     let op = c10::SLICE_OPS[idx(&mut u, 6)];
     let la = idx(&mut u, 300);
     let lb = if idx(&mut u, 2) == 0 { la } else { idx(&mut u, 300) };
@@ -98,7 +98,8 @@ pub fn fork(data: &[u8]) -> c12::Case {
             choices.push(b);
         }
     }
-    c12::Case { cap, array_storage, int_frames, variant, choices, split_at }
+    let src_len = data.last().filter(|b| **b % 3 == 0).map(|b| *b as u64 / 3 % 40);
+    c12::Case { cap, array_storage, int_frames, variant, choices, split_at, src_len, rb_start: data.len() }
 }
 
 pub fn bus(data: &[u8]) -> c13::Case {
